@@ -79,6 +79,8 @@ type ScriptCfg struct {
 	UserTok   string          `json:"userTok"` // "" | enc | signenc
 	Template  string          `json:"template"`
 	NoUser    bool            `json:"noUser"`
+	// Auths, when set, enables several mechanisms at once (Auth is then ignored)
+	Auths []string `json:"auths,omitempty"`
 	// KeyOverride replaces configured keys: paasign | sess | sessenc | userenc -> value ("-" = leave the key out)
 	KeyOverride map[string]string `json:"keyOverride,omitempty"`
 }
@@ -113,6 +115,7 @@ type Inst struct {
 	Sym      map[string]string
 	Backends map[string]*envx.Backend
 	Users    map[string]string // ntlm / local users (name -> password)
+	krbDir   string
 }
 
 // AuthProc is a running rdpgw-auth.
@@ -395,25 +398,43 @@ func (r *Runner) NewInst(cfg ScriptCfg) (*Inst, error) {
 		c.CertFile, c.KeyFile = cp, kp
 		c.GatewayAddress = "https://127.0.0.1:%PORT%"
 	}
-	switch cfg.Auth {
-	case "openid", "":
-		idp, err := r.SharedIdP()
-		if err != nil {
-			return nil, err
+	auths := cfg.Auths
+	if len(auths) == 0 {
+		a := cfg.Auth
+		if a == "" {
+			a = "openid"
 		}
-		in.IdP = idp
-		c.Authentication = []string{"openid"}
-		c.ProviderUrl, c.ClientId, c.ClientSecret = idp.URL, idp.ClientID, idp.Secret
-	case "ntlm", "local":
-		a, err := r.StartAuth(in.Users)
-		if err != nil {
-			return nil, err
+		auths = []string{a}
+	}
+	c.Authentication = auths
+	for _, a := range auths {
+		switch a {
+		case "openid":
+			idp, err := r.SharedIdP()
+			if err != nil {
+				return nil, err
+			}
+			in.IdP = idp
+			c.ProviderUrl, c.ClientId, c.ClientSecret = idp.URL, idp.ClientID, idp.Secret
+		case "ntlm", "local":
+			if in.Auth == nil {
+				ap, err := r.StartAuth(in.Users)
+				if err != nil {
+					return nil, err
+				}
+				in.Auth = ap
+				c.AuthSocket = ap.Sock
+			}
+		case "kerberos":
+			kt, conf, err := r.KerberosFiles([]string{"127.0.0.1:1"})
+			if err != nil {
+				return nil, err
+			}
+			in.krbDir = filepath.Dir(kt)
+			c.Keytab, c.Krb5Conf = kt, conf
+		default:
+			return nil, fmt.Errorf("unknown auth %q", a)
 		}
-		in.Auth = a
-		c.Authentication = []string{cfg.Auth}
-		c.AuthSocket = a.Sock
-	default:
-		return nil, fmt.Errorf("unknown auth %q", cfg.Auth)
 	}
 	p, err := gw.Start(c, gw.StartOpts{Binary: r.BinGW, WorkDir: r.Work})
 	if err != nil {
@@ -433,6 +454,9 @@ func (i *Inst) Stop() {
 	}
 	for _, b := range i.Backends {
 		b.Close()
+	}
+	if i.krbDir != "" {
+		os.RemoveAll(i.krbDir)
 	}
 }
 
